@@ -1172,10 +1172,18 @@ fn fault_state(h: &mut Harness, rep: &mut Reporter, ops: &[Op], only: Option<Fau
 
 /// distinct final file shapes (segment numbers + (table,page) sequence per segment) of all histories up to `depth`,
 /// each with the first (shortest) history producing it — computed on the model alone, identically in every worker
-fn fault_seeds(alpha: &str, depth: usize) -> Vec<Vec<Op>> {
-    let ab = alphabet(alpha);
+fn fault_seeds(spec: &str) -> Vec<Vec<Op>> {
     let mut seen: BTreeSet<Vec<(u64, Vec<(u8, u8)>)>> = BTreeSet::new();
     let mut out = Vec::new();
+    for part in spec.split('+') {
+        let (alpha, depth) = part.split_once('@').unwrap_or((part, "3"));
+        fault_seeds_one(alpha, depth.parse().unwrap_or(3), &mut seen, &mut out);
+    }
+    out
+}
+
+fn fault_seeds_one(alpha: &str, depth: usize, seen: &mut BTreeSet<Vec<(u64, Vec<(u8, u8)>)>>, out: &mut Vec<Vec<Op>>) {
+    let ab = alphabet(alpha);
     let mut frontier: Vec<(Vec<Op>, Model)> = vec![(vec![], Model::new())];
     for _ in 1..=depth {
         let mut next = Vec::new();
@@ -1204,7 +1212,6 @@ fn fault_seeds(alpha: &str, depth: usize) -> Vec<Vec<Op>> {
         }
         frontier = next;
     }
-    out
 }
 
 // ---------------------------------------------------------------------------
@@ -1215,7 +1222,7 @@ impl Check for C03 {
         let mut s = Spec::new(
             "C03",
             "model_checking",
-            "part 1 (histories): every sequence of operations on a real Wal in an empty directory, breadth-first (shortest first), every history re-executed from scratch and all oracles (recover, recover_for_file per file id, read_page) evaluated after EVERY history; a history is not extended once replay diverges from the model. 2 file ids x 3 pages, every frame carries a unique recognisable image. Alphabets: full = write(tbl,page) x6, write_batch[2] x3, rotate, truncate, reopen, reopen+write x2 (14 ops) to depth 4 (quick) / 5 (thorough) in SyncMode::Full and to depth 3 / 4 in SyncMode::Off; medium (10 ops) to depth 6 (thorough only); small (7 ops) to depth 5 / 7. read_page is evaluated on histories up to length 3 / 4. Distinct = distinct (alphabet, sync mode, op sequence); non-trivial = writes at least one frame. part 2 (faults): for every distinct final file shape (segment numbers + (table,page) sequence per segment) of the medium-alphabet histories up to length 3 / 4: every truncation offset k*512 and b-1,b,b+1 around every frame boundary b, zero-fill of every 512-byte sector, flips of every header byte (masks 01 and 80) and of 65 payload bytes per frame (mask FF), zero-extension of the last segment by 1, 512, F-1, F, F+1, 2F bytes (F = frame size 16416); one case = one fault on one file shape; expected = frames before the first damaged frame in write order.",
+            "part 1 (histories): every sequence of operations on a real Wal in an empty directory, breadth-first (shortest first), every history re-executed from scratch and all oracles (recover, recover_for_file per file id, read_page) evaluated after EVERY history; a history is not extended once replay diverges from the model. 2 file ids x 3 pages, every frame carries a unique recognisable image. Alphabets: full = write(tbl,page) x6, write_batch[2] x3, rotate, truncate, reopen, reopen+write x2 (14 ops) to depth 4 (quick) / 5 (thorough) in SyncMode::Full and to depth 3 / 4 in SyncMode::Off; medium (10 ops) to depth 5 (thorough only; --opt depth_medium=6 for more); small (7 ops) to depth 5 / 7. read_page is evaluated on histories up to length 3 / 4. Distinct = distinct (alphabet, sync mode, op sequence); non-trivial = writes at least one frame. part 2 (faults): for every distinct final file shape (segment numbers + (table,page) sequence per segment) of the histories medium-alphabet<=2 + small-alphabet<=3 (quick) / medium-alphabet<=4 (thorough), each case on files re-created from saved pristine bytes (Wal::open may trim the latest segment): every truncation offset k*512 and b-1,b,b+1 around every frame boundary b, zero-fill of every 512-byte sector, flips of every header byte (masks 01 and 80) and of 65 payload bytes per frame (mask FF), zero-extension of the last segment by 1, 512, F-1, F, F+1, 2F bytes (F = frame size 16416); one case = one fault on one file shape; expected = frames before the first damaged frame in write order.",
         );
         s.assumptions = &[
             "expected replay comes from the harness's own model (frames since last truncate, segment order) and its own page images; file layout is parsed by an independent CRC-64/ECMA-182 reader",
@@ -1236,9 +1243,8 @@ impl Check for C03 {
         }
         let d_full = ctx.opt("depth").and_then(|s| s.parse().ok()).unwrap_or(ctx.tier.pick(4usize, 5usize));
         let d_nosync = ctx.opt("depth_nosync").and_then(|s| s.parse().ok()).unwrap_or(ctx.tier.pick(3usize, 4usize));
-        let d_medium = ctx.opt("depth_medium").and_then(|s| s.parse().ok()).unwrap_or(ctx.tier.pick(0usize, 6usize));
+        let d_medium = ctx.opt("depth_medium").and_then(|s| s.parse().ok()).unwrap_or(ctx.tier.pick(0usize, 5usize));
         let d_small = ctx.opt("depth_small").and_then(|s| s.parse().ok()).unwrap_or(ctx.tier.pick(5usize, 7usize));
-        let d_fault = ctx.opt("depth_fault").and_then(|s| s.parse().ok()).unwrap_or(ctx.tier.pick(3usize, 4usize));
         let d_rp = ctx.opt("depth_read_page").and_then(|s| s.parse().ok()).unwrap_or(ctx.tier.pick(3usize, 4usize));
         rep.bound("read_page_oracle_evaluated_up_to_history_length", json!(d_rp));
         rep.bound("history_depth_full_alphabet_fullsync", json!(d_full));
@@ -1246,7 +1252,6 @@ impl Check for C03 {
         rep.bound("history_depth_small_alphabet_fullsync", json!(d_small));
         rep.bound("history_depth_medium_alphabet_fullsync", json!(d_medium));
         rep.bound("alphabet_medium", json!(enc_ops(&alphabet("medium"))));
-        rep.bound("fault_history_depth", json!(d_fault));
         rep.bound("alphabet_full", json!(enc_ops(&alphabet("full"))));
         rep.bound("alphabet_small", json!(enc_ops(&alphabet("small"))));
         let only = ctx.opt("only").unwrap_or("");
@@ -1262,11 +1267,14 @@ impl Check for C03 {
         if only.is_empty() || only == "full" {
             complete &= explore(ctx, &mut h, rep, "full", false, d_full, d_rp);
         }
+        if complete && (only.is_empty() || only == "small") {
+            complete &= explore(ctx, &mut h, rep, "small", false, d_small, d_rp);
+        }
         if complete && (only.is_empty() || only == "fault") {
             // part 2
-            let a_fault = ctx.opt("alphabet_fault").unwrap_or(ctx.tier.pick("medium", "medium")).to_string();
-            rep.bound("fault_history_alphabet", json!(a_fault));
-            let seeds = fault_seeds(&a_fault, d_fault);
+            let a_fault = ctx.opt("fault_histories").unwrap_or(ctx.tier.pick("medium@2+small@3", "medium@4")).to_string();
+            rep.bound("fault_histories_alphabet_at_depth", json!(a_fault));
+            let seeds = fault_seeds(&a_fault);
             rep.bound("fault_file_shapes", json!(seeds.len()));
             for (i, ops) in seeds.iter().enumerate() {
                 if !ctx.mine(i as u64) {
@@ -1284,10 +1292,7 @@ impl Check for C03 {
             complete &= explore(ctx, &mut h, rep, "full", true, d_nosync, d_rp.min(d_nosync.saturating_sub(1)));
         }
         if complete && d_medium > 0 && (only.is_empty() || only == "medium") {
-            complete &= explore(ctx, &mut h, rep, "medium", false, d_medium, d_rp);
-        }
-        if complete && (only.is_empty() || only == "small") {
-            explore(ctx, &mut h, rep, "small", false, d_small, d_rp);
+            explore(ctx, &mut h, rep, "medium", false, d_medium, d_rp);
         }
         rep.count("frames_applied_on_recovery", h.frames_applied);
         rep.count("operations_executed_including_reexecution", h.ops_executed);
